@@ -85,4 +85,39 @@ def documentedAggregators : List String :=
   ["mean", "median", "min", "max", "std", "variance", "iqr", "range", "count", "sum", "meanabs",
    "absmean", "change", "abschange"]
 
+/-! ### default thresholds and quantiles
+
+The tool says what it does when `-r` is absent and the score needs thresholds on the observed /
+forecast values: "Missing '-r <thresholds>'. Automatically setting thresholds: …" followed by 20 values.
+Documented reading: 20 evenly spaced values from the smallest to the largest observed / forecast value.
+For scores of stored probabilities (Brier score, …) the thresholds are those the files store
+probabilities for; for quantile scores ("Use -q to set quantiles") the quantiles the files store. -/
+
+/-- `lo` is the smallest of `vals` -/
+def IsMin (vals : List Rat) (lo : Rat) : Prop := lo ∈ vals ∧ ∀ v ∈ vals, lo ≤ v
+
+/-- `hi` is the largest of `vals` -/
+def IsMax (vals : List Rat) (hi : Rat) : Prop := hi ∈ vals ∧ ∀ v ∈ vals, v ≤ hi
+
+/-- `l` is the automatic threshold list for the observed / forecast values `vals`: 20 entries, the first
+is the smallest value, the last is the largest value, neighbours are the same distance apart -/
+def IsAutoThresholds (vals l : List Rat) : Prop :=
+  ∃ lo hi step : Rat, IsMin vals lo ∧ IsMax vals hi ∧ l.length = 20 ∧ l[0]? = some lo ∧ l[19]? = some hi ∧
+    ∀ k : Nat, k < 19 → ∃ x y : Rat, l[k]? = some x ∧ l[k + 1]? = some y ∧ y - x = step
+
+/-- the number of quantiles a score accepts ("spread between two quantiles": exactly 2; quantile
+coverage: one quantile or an interval, 1 or 2): (score, fewest, most) -/
+def documentedQuantileCounts : List (String × Nat × Nat) :=
+  [("quantilecoverage", 1, 2), ("spread", 2, 2), ("spreadskillratio", 2, 2)]
+
+/-! ### listings
+
+`--list-times`, `--list-dates`, `--list-locations`, `--list-thresholds`, `--list-quantiles`: "What
+times / dates / locations / thresholds / quantiles are available in the files?" — one row per verified
+value, in ascending order; a location row is `id lat lon elev` under the header line
+`    id     lat     lon    elev` (lat / lon with two decimals, elev with one). -/
+
+/-- the precision of the columns of a location row: (column, decimals) -/
+def locationColumns : List (String × Nat) := [("id", 0), ("lat", 2), ("lon", 2), ("elev", 1)]
+
 end VerifModel.Spec.Options
